@@ -128,12 +128,14 @@ Proof.
     { destruct (Nat.ltb_spec (gdde c) n); lia. }
     rewrite Hn. reflexivity.
   - (* plain delay: kept continuous when dde_approx > 0; with dde_approx = 0 both sides are the order-0 pass-through *)
-    rewrite Habove, Hrate. unfold slot_rate, slot_order, slot_m. rewrite Ed.
     destruct (continuous c) eqn:Hc.
-    + rewrite (of_nat_pos_ne d Hd). reflexivity.
+    + cbn [negb orb] in Habove. rewrite Habove, Hrate. unfold slot_rate, slot_order, slot_m. rewrite Ed, Hc.
+      rewrite (of_nat_pos_ne d Hd). reflexivity.
     + assert (H0 : gdde c = 0%nat).
       { unfold continuous, fixed_dde_steps in Hc. cbn in Hc. destruct (gdde c); [reflexivity|discriminate]. }
-      rewrite H0. destruct (Qceqb (of_nat (steps_of d (gdt c))) 0); rewrite ?zero_div; reflexivity.
+      destruct (gadd_delay c (gkey c (gsrc e))); [|rewrite H0, zero_div; reflexivity].
+      rewrite Hrate. unfold slot_rate, slot_order, slot_m. rewrite Ed, Hc, H0.
+      destruct (Qceqb (of_nat (steps_of d (gdt c))) 0); rewrite ?zero_div; reflexivity.
   - destruct (gadd_delay c (gkey c (gsrc e))) eqn:Ga; [|reflexivity].
     rewrite Hrate. rewrite orb_false_r in Hker. apply Nat.eqb_eq in Hker.
     unfold slot_rate. rewrite Hker. destruct (Qceqb (slot_m c e) 0); rewrite ?zero_div; reflexivity.
